@@ -10,7 +10,7 @@ LEVEL = "exploration"
 RULE = (
     "Hypothesis rule-based state machine over ONE long-lived ExpressionParser and the bag of token lists it has handed "
     "out; rules: parse(s), tokenize(s), list-level edit of a handed-out token list (pop front/back, delete, insert, "
-    "reverse, clear, consume all), clear_cache(), query(s); strings come from a pool of 16 valid and invalid texts so "
+    "reverse, clear, consume all), clear_cache(), query(s); strings come from a pool of 37 valid and invalid texts (one per failure class, plus pairs differing only in blanks/case) so "
     "repeats are frequent; after every parse/tokenize/query step the used parser's result is compared with a fresh "
     "parser's (structural signature of the tree or exception class; (type, value) list of the tokens) and a handed-out "
     "list must be a new list object; every pool string is queried at the end; non-trivial = some text requested at "
@@ -20,8 +20,15 @@ ASSUMPTIONS = [
     "the tree returned by parse is the cached object itself; mutating returned TREES or the fields of shared Token objects is not among the operations the property quantifies over and is not done",
 ]
 
-POOL = ["x + 1", "2x^2 + 3x", "4 / (y - 1)", "sgn(x) * 3!", "x = 2y + 1", "-(a + b)^2", "7", "xyz",
-        "(", "x +", "1.2.3", "x ? y", "", "2 ^", ")x(", "4 + + 2"]
+POOL = [
+    # valid
+    "x + 1", "2x^2 + 3x", "4 / (y - 1)", "sgn(x) * 3!", "x = 2y + 1", "-(a + b)^2", "7", "xyz", "12", "sgn(x)", "2x", "1.5",
+    # valid/invalid pairs that differ only in blanks or case (a cache key must not identify them)
+    "1 2", "s gn(x)", "2 x", "1. 5", "x+1", " x + 1 ", "SGN(x)", "x\t+ 1", "x\x0b+ 1",
+    # one text per failure class: empty, unexpected end, bad number, bad character, missing operand, bad start,
+    # doubled operator, TRAILING tokens after a complete prefix (several shapes), unbalanced brackets
+    "(", "x +", "1.2.3", "x ? y", "", "2 ^", ")x(", "4 + + 2", "x 2", "12 4", "x + 1)", "4x + 2y) * 7", "(x))", "3!!", "x = ", "= x",
+]
 EDITS = ["pop_front", "pop_back", "delete", "insert", "reverse", "clear", "consume", "dup"]
 
 
